@@ -22,6 +22,7 @@
                                         statements, …, final none / E<code>)
     c16.nest N fuel pre , … ;; item ; … ;; post , …   IF TRUE THEN pre…; WHILE … IN N … END WHILE; post… END IF → trace
     c16.block stmt , stmt , …         IF TRUE THEN … END IF at top level            → trace
+    c16.block2 pre , … ;; inner , … ;; post , …   outer block { pre…; inner block { inner… }; post… } at top level (`runNested`) → trace
     c16.openre N reps k row_1 … row_k ;; stmt , …   OPEN N whose query (result: the rows) calls, reps times, a function
                                       with these statements (`openRe`: N is still closed meanwhile)   → trace
     c16.conc L W                      W clients FETCH NEXT a fresh cursor of L rows until each has seen "no row"
@@ -118,6 +119,17 @@ def structured (s : Scope String) (cmd : String) (args0 : List String) : Option 
         let r := nestS fuel pre name body post [s]
         some (r.1.headD [], showTrace r.2.1 r.2.2)
       | _, _, _, _ => none
+    | _ => none
+  | "block2", rest =>
+    match splitBy ";;" rest with
+    | [pre, inner, post] =>
+      match ((splitBy "," pre).filter (fun x => !x.isEmpty)).mapM parseStmt,
+          ((splitBy "," inner).filter (fun x => !x.isEmpty)).mapM parseStmt,
+          ((splitBy "," post).filter (fun x => !x.isEmpty)).mapM parseStmt with
+      | some pre, some inner, some post =>
+        let r := runNested [s] pre inner post
+        some (r.1.headD [], showTrace r.2.1 true)
+      | _, _, _ => none
     | _ => none
   | "block", rest =>
     match ((splitBy "," rest).filter (fun x => !x.isEmpty)).mapM parseStmt with
@@ -225,7 +237,7 @@ partial def c16Loop (h out : IO.FS.Stream) (s : Scope String) : IO Unit := do
           out.putStrLn "bad-op"
           c16Loop h out s
       else
-      if cmd = "loop" || cmd = "block" || cmd = "nest" then
+      if cmd = "loop" || cmd = "block" || cmd = "nest" || cmd = "block2" then
         match structured s cmd args with
         | some (s', line) =>
           out.putStrLn line
